@@ -185,6 +185,7 @@ def gen_ops(rng, spec, n):
     ops = []
     cur_box = (spec["ranges"][0], spec["ranges"][1]) if spec.get("ranges") else None
     cur_cons = spec.get("constraints")
+    cons_unknown = False
     for _ in range(n):
         k = rng.random()
         if k < 0.62:
@@ -198,12 +199,20 @@ def gen_ops(rng, spec, n):
         elif k < 0.82:
             ops.append(("clearexit",))
         elif k < 0.86:
-            ops.append(("setpenalty", gen_penalty(rng, dim) if rng.random() < 0.7 else None))
+            pen_new = gen_penalty(rng, dim) if rng.random() < 0.7 else None
+            if rng.random() < 0.3:
+                ops.append(("step", {"penalty": pen_new}))          # the same setting handed to Step itself
+            else:
+                ops.append(("setpenalty", pen_new))
         elif k < 0.90:
             cur_cons = gen_constraints(rng, dim, cur_box) if rng.random() < 0.8 else None
-            ops.append(("setconstraints", cur_cons))
+            if rng.random() < 0.3:
+                ops.append(("step", {"constraints": cur_cons}))
+                cons_unknown = True       # installed only if that Step really runs an iteration
+            else:
+                ops.append(("setconstraints", cur_cons))
         elif k < 0.94:
-            if cur_cons is not None:
+            if cur_cons is not None or cons_unknown:
                 ops.append(("step",)); continue
             c = spec.get("x0") or [0.5 * (a + b) for a, b in zip(*spec["init_box"])]
             lo, hi, bk = gen_box(rng, dim, c, rng.choice(["finite", "onesided", "degenerate"]))
@@ -215,7 +224,7 @@ def gen_ops(rng, spec, n):
         elif k < 0.96:
             ops.append(("settermination", gen_termination(rng, spec["solver"]) or ("never",)))
         elif k < 0.975 and spec.get("monitor_ops"):
-            ops.append(("setstepmon", rng.random() < 0.2))
+            ops.append(("setstepmon", rng.random() < 0.2, rng.choice(["monitor", "monitor", "none", "null"])))
         elif k < 0.985 and spec.get("monitor_ops"):
             ops.append(("setevalmon", rng.random() < 0.3))
         else:
